@@ -1321,6 +1321,11 @@ where
                 if let Some(ty) = self.resolve_indexed_access(obj_type, index_type) {
                     runtime_types.extend(self.infer_runtime_type(&ty));
                 }
+                if runtime_types.is_empty() {
+                    // the access can't be followed (an imported object type, a `keyof` index):
+                    // no runtime check, rather than `type: []` which no value passes
+                    runtime_types.insert(Some(Atom::from(ANY_TYPE)));
+                }
             }
             TsType::TsOptionalType(TsOptionalType { type_ann, .. }) => {
                 runtime_types.extend(self.infer_runtime_type(type_ann));
